@@ -24,11 +24,17 @@ class ExpVariables(object):
 
     @classmethod
     def compile(cls, config: dict, defaults: "ExpVariables") -> "ExpVariables":
-        input_sizes = config.get("input_sizes", defaults.input_sizes)
-        cores = config.get("cores", defaults.cores)
-        variable_values = config.get("variable_values", defaults.variable_values)
-        tags = config.get("tags", defaults.tags)
+        input_sizes = cls._get(config, "input_sizes", defaults.input_sizes)
+        cores = cls._get(config, "cores", defaults.cores)
+        variable_values = cls._get(config, "variable_values", defaults.variable_values)
+        tags = cls._get(config, "tags", defaults.tags)
         return ExpVariables(input_sizes, cores, variable_values, tags)
+
+    @staticmethod
+    def _get(config: dict, key: str, default: list) -> list:
+        # a key without a value, i.e. None, does not define the list
+        value = config.get(key)
+        return default if value is None else value
 
     @classmethod
     def empty(cls):
